@@ -5,7 +5,7 @@ R-OVR-BOTH     tick path and repeat path apply the override pass before looking 
 R-OVR-RELEASE  release-on-activation never erases a held modifier.
 """
 from kq.analysis import backward_slice, blocks_calling, discr_switches
-from kq.core import callee_name, const_val, is_const, norm_name, proj
+from kq.core import is_place, callee_name, const_val, is_const, norm_name, proj
 from kq.report import RuleResult
 from rules.r_cancel import closure_arg
 from rules.r_doaction import receiver_fields
@@ -228,6 +228,23 @@ def rule_longest(prog):
         res.viol("selection-compares-modifier-counts", f.loc,
                  "update_keys no longer compares the number of modifiers of the matching overrides (no ordering comparison depends on "
                  "in_mod_oscs.len() or a popcount): with several matching overrides the one with the most modifiers need not win")
+    # the running maximum lives in the filter closure's captured counter: it is only meaningful if the filtered iterator is
+    # consumed completely and front to back (`.last()`, a for loop, fold); `.next_back()`, `.rev()`, `.next()`, `.find()`
+    # take the first acceptable element from one end instead of the longest match
+    consumers = [((callee_name(t) or "").split("::")[-1], t.get("ln")) for bi, t in f.calls()
+                 if "Filter<" in (f.local_ty(t["args"][0]["l"]) if t["args"] and is_place(t["args"][0]) else "") or
+                 "Filter<" in ((callee_name(t) or "") + (t.get("ga") or ""))]
+    partial = [c for c in consumers if c[0] in ("next_back", "rev", "next", "find", "nth", "nth_back", "rfind", "find_map", "position", "any", "min_by_key")]
+    full = [c for c in consumers if c[0] in ("last", "fold", "for_each", "max_by_key", "max_by", "reduce", "count", "collect")]
+    ok_scan = bool(full) and not partial
+    res.inst("selection-scans-every-override-in-order", consumers=[c[0] for c in consumers], ok=ok_scan)
+    res.oblige(ok_scan)
+    if not ok_scan:
+        res.viol("selection-scans-every-override-in-order", "%s:%s" % (f.file, (partial or consumers or [("", f.line_of(0))])[0][1]),
+                 "the filtered override iterator of update_keys is consumed by %s: the filter keeps a running 'longest so far', which is "
+                 "only the longest match if the iterator is walked completely from the front (`.last()`); taken from the back or cut "
+                 "short, the override that wins depends on the order in defoverrides, not on the number of modifiers"
+                 % ([c[0] for c in (partial or consumers)] or "nothing that walks it completely"))
     n = 0
     for c in prog.closures_of(f):
         gm = blocks_calling(c, c.reachable(), [KO + "Override::get_mod_mask"])
